@@ -305,14 +305,31 @@ MismatchAt(E, O, q) ==
      ELSE IF Len(oq) > Len(eq) THEN [pos |-> n + 1, what |-> "extra-op", he |-> FALSE, ho |-> TRUE, e |-> oq[n + 1], o |-> oq[n + 1]]
      ELSE [pos |-> 0, what |-> "", he |-> FALSE, ho |-> FALSE, e |-> 0, o |-> 0]
 
-\* name of a function called somewhere in the program ("" if none), read off the flat denotation F
-FirstFnOf(F) ==
-  LET S == {<<i, j>> \in (1..Len(F)) \X (1..6) : j <= Len(F[i].p) /\ ~F[i].p[j].known /\ ~F[i].p[j].bad}
-  IN IF S = {} THEN "" ELSE LET c == CHOOSE x \in S : \A y \in S : x[1] < y[1] \/ (x[1] = y[1] /\ x[2] <= y[2]) IN F[c[1]].p[c[2]].ft
+\* the functions a program calls anywhere (definitions are read eagerly, applied or not), as "cos+exp+" ...
+RECURSIVE FnsOfExpr(_)
+FnsOfExpr(e) == CASE e.k = "fn" -> {e.f} \cup FnsOfExpr(e.x)
+                  [] e.k \in {"par", "neg"} -> FnsOfExpr(e.x)
+                  [] e.k \in {"add", "sub", "mul", "div", "pow"} -> FnsOfExpr(e.x) \cup FnsOfExpr(e.y)
+                  [] OTHER -> {}
+FnsOfProgram(P) ==
+  UNION ({FnsOfExpr(P.stmts[x[1]].p[x[2]]) : x \in {y \in (1..Len(P.stmts)) \X (1..6) : y[2] <= Len(P.stmts[y[1]].p)}}
+         \cup {FnsOfExpr(P.gates[x[1]].body[x[2]].p[x[3]]) :
+                 x \in {y \in (1..Len(P.gates)) \X (1..8) \X (1..6) : y[2] <= Len(P.gates[y[1]].body) /\ y[3] <= Len(P.gates[y[1]].body[y[2]].p)}})
+FnTag(P) == LET S == FnsOfProgram(P)  T(f) == IF f \in S THEN f \o "+" ELSE "" IN
+            T("cos") \o T("exp") \o T("ln") \o T("sin") \o T("sqrt") \o T("tan")
 UsesBroadcast(P) == \E i \in 1..Len(P.stmts) : P.stmts[i].k = "app" /\ \E j \in 1..Len(P.stmts[i].q) : Whole(P.stmts[i].q[j])
-\* an argument list that starts with two or more whole registers (a, b, ... )
-LeadingRegisterList(P) == \E i \in 1..Len(P.stmts) : LET a == P.stmts[i].q IN
-                             P.stmts[i].k \in {"app", "barrier"} /\ Len(a) >= 2 /\ Whole(a[1]) /\ Whole(a[2])
+\* the first statement (readers work in program order) that uses one of: the built-in U / CX on a whole register;
+\* an argument list that starts with two or more whole registers (a, b, ...); broadcast of a gate over a register
+StmtRisk(st) ==
+  IF st.k = "app" /\ st.g \in {"U", "CX"} /\ \E j \in 1..Len(st.q) : Whole(st.q[j]) THEN "builtin-gate-broadcast"
+  ELSE IF st.k \in {"app", "barrier"} /\ Len(st.q) >= 2 /\ Whole(st.q[1]) /\ Whole(st.q[2]) THEN "leading-register-list"
+  ELSE IF st.k = "app" /\ \E j \in 1..Len(st.q) : Whole(st.q[j]) THEN "register-broadcast"
+  ELSE "none"
+\* (plain broadcast is either declined with a LangException or, over a one-qubit register, simply works: it is only
+\*  named when no statement of the two other kinds exists)
+RiskFeature(P) == LET S == {i \in 1..Len(P.stmts) : StmtRisk(P.stmts[i]) \in {"builtin-gate-broadcast", "leading-register-list"}} IN
+                  IF S # {} THEN StmtRisk(P.stmts[CHOOSE i \in S : \A j \in S : i <= j])
+                  ELSE IF UsesBroadcast(P) THEN "register-broadcast" ELSE "none"
 
 FlatError(F) ==
   IF \E i \in 1..Len(F) : \E j \in 1..Len(F[i].p) : F[i].p[j].bad THEN "value-outside-exact-domain"
@@ -321,18 +338,16 @@ FlatError(F) ==
 GeneratorError(P) == IF ~WellFormed(P) THEN "ast-not-well-formed" ELSE FlatError(Flat(P))
 
 \* Result: <<clause, what, feature, gate>>; clause "ok" when the observation is the program's denotation.
+\* (for a rejected program: <<clause, exception class, first risky statement feature, functions used>>)
 \* obs = [status |-> "ok" | "lang-exception" | "crash" | "skipped", err |-> exception class, nq, ops]
 \* strict = FALSE: a clean refusal (LangException) of a program that uses register broadcast of a *gate* is accepted:
 \* the property lists "several registers, user-defined gates, expressions, barriers, measurement, reset" and not
 \* broadcast, so L1 takes the weaker reading (an implementation may decline it, but must not mis-read it).
 JudgeWith(P, obs, strict, E) ==
-  LET f == FirstFnOf(E) IN
   IF obs.status = "skipped" THEN <<"ok", "", "", "">>
   ELSE IF obs.status # "ok" THEN
-     IF ~strict /\ obs.status = "lang-exception" /\ UsesBroadcast(P) /\ f = "" THEN <<"ok", "", "", "">>
-     ELSE IF f # "" THEN <<"function-call-fails", obs.err, f, "">>
-     ELSE <<"rejected-valid-program", obs.err,
-            IF LeadingRegisterList(P) THEN "leading-register-list" ELSE IF UsesBroadcast(P) THEN "register-broadcast" ELSE "none", "">>
+     IF ~strict /\ obs.status = "lang-exception" /\ UsesBroadcast(P) THEN <<"ok", "", "", "">>
+     ELSE <<IF FnTag(P) # "" THEN "function-call-fails" ELSE "rejected-valid-program", obs.err, RiskFeature(P), FnTag(P)>>
   ELSE IF obs.nq # NQ(P) THEN <<"num-qubits-differs", "nq", "none", "">>
   ELSE IF \E i \in 1..Len(obs.ops) : \E j \in 1..Len(obs.ops[i].q) : obs.ops[i].q[j] \notin 0..NQ(P) - 1
        THEN <<"denotation-differs", "qubit-out-of-range", "none", "">>
@@ -341,7 +356,8 @@ JudgeWith(P, obs, strict, E) ==
        IN IF badq = {} THEN <<"ok", "", "", "">>
           ELSE LET q == CHOOSE x \in badq : \A y \in badq : x <= y
                    mm == mmf[q]
-                   kind == mm.e.g
+                   \* an observed reset / measure / barrier where something else (or nothing) is expected is that statement's fault
+                   kind == IF mm.ho /\ mm.o.g \in {"reset", "measure", "barrier"} /\ mm.o.g # mm.e.g THEN mm.o.g ELSE mm.e.g
                    feature == CASE kind = "measure" -> MeasureFeature(P)
                                 [] kind = "reset" -> ResetFeature(P)
                                 [] kind = "barrier" -> BarrierFeature(P)
